@@ -62,6 +62,9 @@ type Round struct {
 	// Refuse: the transports refuse this many hand-offs (queue full) before accepting: a transient failure delays dispatch
 	// but never prevents it (C11)
 	Refuse int `json:"refuse,omitempty"`
+	// Saturated: see drawRound; every third request is one its coroutine answers within the tick that admits it (a
+	// callback on its own root), so that ticks occur after which no coroutine is in flight while the queue still holds requests
+	Saturated bool `json:"saturated,omitempty"`
 }
 
 type okPlugin struct {
@@ -97,10 +100,17 @@ func drawRound(r *rand.Rand) Round {
 	if r.Intn(3) == 0 {
 		rd.Refuse = 1 + r.Intn(4)
 	}
-	if r.Intn(3) == 0 {
+	if r.Intn(5) == 0 {
+		// saturated shutdown: a store queue of one, one request per tick, a burst that fills the api queue, shutdown right
+		// behind it - every accepted request is still answered before the loop stops
+		rd.ApiSize, rd.SubBatch, rd.StoreSize, rd.Pool, rd.CqSize = 10, 1, 1, 10, 10
+		rd.Clients, rd.PerClient = small(2, 4), small(6, 12)
+		rd.ShutdownAt = rd.Clients * rd.PerClient
+		rd.Saturated = true
+	} else if r.Intn(3) == 0 {
 		rd.Idle = true
 		rd.ApiSize, rd.CqSize, rd.Pool, rd.SubBatch, rd.CplBatch = 10, 10, 10, 10, 10
-		rd.Clients, rd.PerClient = 1, small(1, 1, 2, 3)
+		rd.Clients, rd.PerClient = 1, small(1, 1, 2, 3, 8)
 		rd.ShutdownAt = rd.Clients * rd.PerClient
 	}
 	return rd
@@ -169,6 +179,7 @@ func runRound(rd Round, dir string) M {
 	resp := map[string]int{}
 	status := map[string]int{}
 	submitted := 0
+	clockBad := ""
 	total := rd.Clients * rd.PerClient
 	shutdownCh := make(chan struct{})
 	var shutOnce sync.Once
@@ -188,6 +199,9 @@ func runRound(rd Round, dir string) M {
 			for k := 0; k < rd.PerClient; k++ {
 				tid := fmt.Sprintf("c%d.%d", c, k)
 				rq := g.Request(tid, time.Now().UnixMilli(), kinds, nil, 50)
+				if rd.Saturated && k%3 != 0 {
+					rq = &t_api.Request{Kind: t_api.CreateCallback, Tags: rq.Tags, CreateCallback: &t_api.CreateCallbackRequest{PromiseId: "imm", RootPromiseId: "imm", Timeout: time.Now().UnixMilli() + 1000, Recv: []byte(`"default"`)}}
+				}
 				if rd.Idle {
 					time.Sleep(time.Duration(10+g.R.Intn(15)) * time.Millisecond) // let the loop go to sleep
 				}
@@ -195,8 +209,16 @@ func runRound(rd Round, dir string) M {
 				submitted++
 				n := submitted
 				mu.Unlock()
+				submitWall := time.Now().UnixMilli()
 				ap.EnqueueSQE(&bus.SQE[t_api.Request, t_api.Response]{Id: tid, Submission: rq, Callback: func(res *t_api.Response, err error) {
 					mu.Lock()
+					// the kernel clock: a request is handled at an instant between its submission and its response
+					if err == nil && res != nil && res.Kind == t_api.CreatePromise && res.CreatePromise != nil && res.CreatePromise.Status == t_api.StatusCreated &&
+						res.CreatePromise.Promise != nil && res.CreatePromise.Promise.CreatedOn != nil {
+						if co := *res.CreatePromise.Promise.CreatedOn; co < submitWall-60 || co > time.Now().UnixMilli()+60 {
+							clockBad = fmt.Sprintf("promise %s was created by request %s submitted at %d and answered at %d, but carries creation time %d", res.CreatePromise.Promise.Id, tid, submitWall, time.Now().UnixMilli(), co)
+						}
+					}
 					resp[tid]++
 					if err != nil {
 						var e *t_api.Error
@@ -245,6 +267,12 @@ func runRound(rd Round, dir string) M {
 		n, bad := answered()
 		if bad != "" {
 			return M{"what": bad, "property_violation": true, "status": status}
+		}
+		mu.Lock()
+		cb := clockBad
+		mu.Unlock()
+		if cb != "" {
+			return M{"what": "the kernel clock is not between submission and response: " + cb, "property_violation": true, "status": status}
 		}
 		if n == total {
 			break
